@@ -3,11 +3,11 @@
     _gpg_multivalued.__init__ runs split_gpg_and_payload on the RAW lines
     (comment lines included) and only then hands the payload to Deb822.__init__,
     which filters comments.  So for these classes a comment line is an ordinary
-    non-blank line while the paragraph is being delimited.  Consequence proved
-    here: comment lines anywhere INSIDE a block (before its first line, between
-    its lines, among the armour header or signature lines) are ignored; what is
-    not ignored - a block of comment lines closed by a blank line - is outside
-    [valid_cblocks]. *)
+    non-blank line while the paragraph is being delimited; a block that consists
+    of comment lines (and whitespace-only lines) only is recognised afterwards
+    and the splitter is run again on the rest of the iterator ([gpgmv_split]).  Proved here: comment lines
+    anywhere - inside blocks, among armour header and signature lines, and as
+    blocks of their own between blank lines - are ignored. *)
 From Coq Require Import Lia ZifyBool.
 From Verif Require Import Lib.Base Lib.PyStr Gen.PyChars Deb822.Model Deb822.Spec
   Deb822.ProofsStr Deb822.ProofsParse Deb822.ProofsConsume Deb822.Proofs.
@@ -149,6 +149,111 @@ Proof.
   eexists. split; [reflexivity|]. cbn [g_lines]. exact Hl3.
 Qed.
 
+(** * The loop of _gpg_multivalued.__init__ from a run of ignorable lines *)
+
+(** the splitter's state after the lines [cs] of a run (comment lines and, under
+    whitespace-separates-paragraphs=False, whitespace-only lines after them) *)
+Definition run_state (cs : list str) : gpg :=
+  match cs with [] => gpg_init | _ => mkG false s_SAFE [] cs [] end.
+
+Definition gpgmv_from (f : nat) (ws : bool) (cs ls : list str) : result (list str) * list str :=
+  let (g, rest) := consume false ws (is_nil cs) (run_state cs) ls in
+  match g_lines g with
+  | [] => (Ok [], rest)
+  | l0 :: ls0 =>
+    if is_nil (g_pre g) && forallb ignorable_line (l0 :: ls0)
+    then gpgmv_split f ws rest else (Ok (l0 :: ls0), rest)
+  end.
+
+Lemma gpgmv_split_from f ws ls : gpgmv_split (S f) ws ls = gpgmv_from f ws [] ls.
+Proof. reflexivity. Qed.
+
+Lemma run_state_facts cs :
+  g_state (run_state cs) = s_SAFE /\ g_pre (run_state cs) = [] /\ g_lines (run_state cs) = cs
+  /\ g_post (run_state cs) = [].
+Proof. destruct cs; repeat split; reflexivity. Qed.
+
+Lemma run_state_snoc cs l : run_state (cs ++ [l]) = mkG false s_SAFE [] (cs ++ [l]) [].
+Proof. destruct cs; reflexivity. Qed.
+
+Lemma gap_line_inv l : gap_line l = true -> comment_line l = true \/ ws_line l = true.
+Proof. unfold gap_line. intros H. apply orb_true_iff in H. exact H. Qed.
+
+Lemma gap_line_ignorable l : gap_line l = true -> ignorable_line l = true.
+Proof.
+  intros H. unfold ignorable_line. destruct (gap_line_inv l H) as [Hc|Hw].
+  - unfold comment_line, is_comment in Hc. apply andb_true_iff in Hc. destruct Hc as [Hc _].
+    change (startswith [35] l) with (startswith [HASH] l) in Hc. now rewrite Hc.
+  - now rewrite (ws_line_blank_ws _ Hw), orb_true_r.
+Qed.
+
+Lemma gap_lines_ignorable cs : forallb gap_line cs = true -> forallb ignorable_line cs = true.
+Proof. apply forallb_impl. apply gap_line_ignorable. Qed.
+
+(** under whitespace-separates-paragraphs=False a non-empty whitespace-only line
+    after the first line of a block is an ordinary payload line for the splitter *)
+Lemma consume_ws_join cs c r rest :
+  ws_line (c :: r) = true -> cs <> [] ->
+  consume false false false (mkG false s_SAFE [] cs []) ((c :: r) :: rest)
+  = consume false false false (mkG false s_SAFE [] (cs ++ [c :: r]) []) rest.
+Proof.
+  intros Hw Hcs. rewrite consume_cons. cbn [andb]. unfold gpg_step.
+  rewrite (strip_crlf_id _ (ws_line_no_linebreak _ Hw)). cbn [g_first andb g_state g_pre g_lines g_post].
+  rewrite (match_gpgre_nodash _ (ws_line_not_dashes _ Hw)).
+  replace (str_eqb s_SAFE s_SAFE) with true by reflexivity.
+  assert (Hb : blank_line false (c :: r) = false).
+  { cbn [blank_line blank_nows]. destruct r; [|reflexivity].
+    cbn [ws_line forallb] in Hw. rewrite andb_true_r in Hw. unfold is_sp_tab in Hw.
+    apply orb_true_iff in Hw. destruct Hw as [Hw|Hw]; apply N.eqb_eq in Hw; subst c; reflexivity. }
+  now rewrite Hb.
+Qed.
+
+(** a gap is swallowed, whatever run precedes it; the fuel stays above what is
+    still to be read *)
+Lemma gap_from ws gap : forall cs X f,
+  forallb gap_line gap = true -> forallb gap_line cs = true ->
+  (length cs + length (gap ++ X) <= f)%nat ->
+  exists cs' f',
+    forallb gap_line cs' = true /\ (length cs' + length X <= f')%nat
+    /\ gpgmv_from f ws cs (gap ++ X) = gpgmv_from f' ws cs' X.
+Proof.
+  induction gap as [|l gap IH]; intros cs X f Hgap Hcs Hf.
+  - exists cs, f. now repeat split.
+  - cbn [forallb] in Hgap. apply andb_true_iff in Hgap. destruct Hgap as [Hl Hgap].
+    cbn [app length] in *. destruct (run_state_facts cs) as (Hst & Hpre & Hlines & Hpost).
+    assert (Hjoin : gpgmv_from f ws cs (l :: gap ++ X) = gpgmv_from f ws (cs ++ [l]) (gap ++ X) ->
+                    exists cs' f', forallb gap_line cs' = true /\ (length cs' + length X <= f')%nat
+                      /\ gpgmv_from f ws cs (l :: gap ++ X) = gpgmv_from f' ws cs' X).
+    { intros E. rewrite E. apply IH; [exact Hgap| |rewrite app_length; cbn [length]; lia].
+      rewrite forallb_app, Hcs. cbn [forallb]. now rewrite Hl. }
+    destruct (gap_line_inv l Hl) as [Hc|Hw].
+    + (* a comment line joins the run *)
+      apply Hjoin. unfold gpgmv_from.
+      rewrite consume_raw_one by (exact Hst || now apply comment_line_raw_safe).
+      rewrite Hpre, Hlines, Hpost, run_state_snoc.
+      replace (is_nil (cs ++ [l])) with false by (destruct cs; reflexivity). reflexivity.
+    + destruct cs as [|c0 cs0].
+      * (* blank line before anything: skipped *)
+        assert (E : gpgmv_from f ws [] (l :: gap ++ X) = gpgmv_from f ws [] (gap ++ X)).
+        { unfold gpgmv_from. cbn [run_state is_nil]. now rewrite consume_lead_one by (reflexivity || exact Hw). }
+        rewrite E. apply IH; [exact Hgap|reflexivity|cbn [length] in *; lia].
+      * assert (Hbreak : sep_line ws l = true ->
+                  exists cs' f', forallb gap_line cs' = true /\ (length cs' + length X <= f')%nat
+                    /\ gpgmv_from f ws (c0 :: cs0) (l :: gap ++ X) = gpgmv_from f' ws cs' X).
+        { (* a separator after the run: a block of ignorable lines only; next round *)
+          intros Hs. destruct f as [|f]; [cbn [length] in Hf; lia|].
+          assert (E : gpgmv_from (S f) ws (c0 :: cs0) (l :: gap ++ X) = gpgmv_from f ws [] (gap ++ X)).
+          { unfold gpgmv_from at 1. cbn [run_state is_nil]. rewrite consume_sep by exact Hs.
+            cbn [g_lines g_pre is_nil andb]. rewrite (gap_lines_ignorable _ Hcs). apply gpgmv_split_from. }
+          rewrite E. apply IH; [exact Hgap|reflexivity|cbn [length] in *; lia]. }
+        destruct ws; [apply Hbreak; exact Hw|].
+        destruct l as [|c r]; [apply Hbreak; reflexivity|].
+        (* whitespace-only, not empty, strict setting False: it joins the run *)
+        apply Hjoin. unfold gpgmv_from. cbn [run_state is_nil].
+        rewrite consume_ws_join by (exact Hw || discriminate).
+        replace (is_nil ((c0 :: cs0) ++ [c :: r])) with false by reflexivity. reflexivity.
+Qed.
+
 (** * One commented block *)
 
 Lemma filter_comments_nil ls : forallb comment_line ls = true -> filter not_comment ls = [].
@@ -157,6 +262,15 @@ Proof.
   apply andb_true_iff in H. destruct H as [Hl Hls]. unfold comment_line in Hl.
   apply andb_true_iff in Hl. destruct Hl as [Hc _]. unfold not_comment. rewrite Hc. cbn [negb].
   now apply IH.
+Qed.
+
+(** the non-comment lines of a run are whitespace-only lines *)
+Lemma filter_run_ws cs : forallb gap_line cs = true -> forallb ws_line (filter not_comment cs) = true.
+Proof.
+  intros H. apply forallb_forall. intros x Hx. apply filter_In in Hx. destruct Hx as [Hx Hnc].
+  rewrite forallb_forall in H. destruct (gap_line_inv x (H x Hx)) as [Hc|Hw]; [|exact Hw].
+  unfold comment_line in Hc. apply andb_true_iff in Hc. destruct Hc as [Hc _].
+  unfold not_comment in Hnc. rewrite Hc in Hnc. discriminate.
 Qed.
 
 Lemma commented_body_raw_safe body d :
@@ -171,24 +285,61 @@ Proof.
     unfold not_comment. now rewrite Ec.
 Qed.
 
-(** Deb822.__init__ on a payload that still contains the comment lines *)
-Lemma deb822_init_commented ws lines d :
-  valid_para d = true -> d <> [] -> filter not_comment lines = para_lines d ->
-  fst (deb822_init ws lines) = Ok (expected_para d).
+(** Deb822.__init__ on leading blank lines and the lines of a paragraph *)
+Lemma deb822_init_lead_payload ws lead d :
+  forallb ws_line lead = true -> valid_para d = true -> d <> [] ->
+  fst (deb822_init ws (lead ++ para_lines d)) = Ok (expected_para d).
 Proof.
-  intros Hv Hne Hf. rewrite deb822_init_comments, Hf.
-  eapply deb822_init_payload; [exact Hv|exact Hne|reflexivity].
+  intros Hlead Hv Hne. pose (b := mkBlock d None []).
+  assert (Hb : valid_block ws true b = true).
+  { unfold valid_block. cbn [b b_para b_armor b_seps]. rewrite Hv.
+    destruct d; [congruence|reflexivity]. }
+  destruct (init_of_block CDeb822 ws true lead b [] Hlead Hb) as (E & _); [reflexivity|].
+  unfold block_lines, after_block in E. cbn [b b_para b_armor b_seps wrap_lines app init_of] in E.
+  rewrite !app_nil_r in E. now rewrite E.
+Qed.
+
+(** Deb822.__init__ on a payload that still contains the run and the comment lines *)
+Lemma deb822_init_commented ws cs body d :
+  valid_para d = true -> d <> [] -> forallb gap_line cs = true ->
+  filter not_comment body = para_lines d ->
+  fst (deb822_init ws (cs ++ body)) = Ok (expected_para d).
+Proof.
+  intros Hv Hne Hcs Hf. rewrite deb822_init_comments, filter_app, Hf.
+  apply deb822_init_lead_payload; [now apply filter_run_ws|exact Hv|exact Hne].
+Qed.
+
+Lemma body_nonnil body d : d <> [] -> filter not_comment body = para_lines d -> body <> [].
+Proof.
+  intros Hne Hf Hb. subst body. cbn in Hf. symmetry in Hf. now apply (para_lines_nonnil d Hne).
+Qed.
+
+(** a payload that contains a line of a valid paragraph does not look like a
+    block of ignorable lines *)
+Lemma not_all_ignorable cs body d :
+  valid_para d = true -> d <> [] -> filter not_comment body = para_lines d ->
+  forallb ignorable_line (cs ++ body) = false.
+Proof.
+  intros Hv Hne Hf. pose proof (para_lines_safe d Hv) as Hs. pose proof (para_lines_nonnil d Hne) as Hn.
+  destruct (para_lines d) as [|x P] eqn:EP; [congruence|].
+  assert (Hin : In x body).
+  { assert (H : In x (filter not_comment body)) by (rewrite Hf; now left). apply filter_In in H. tauto. }
+  cbn [forallb] in Hs. apply andb_true_iff in Hs. destruct Hs as [Hx _].
+  destruct (forallb ignorable_line (cs ++ body)) eqn:E; [|reflexivity].
+  rewrite forallb_forall in E. pose proof (safe_line_not_ignorable x Hx) as Hni.
+  rewrite (E x) in Hni; [discriminate|]. apply in_or_app. now right.
 Qed.
 
 Lemma valid_cblock_inv ws last cb :
   valid_cblock ws last cb = true ->
   valid_para (cb_para cb) = true /\ cb_para cb <> []
-  /\ forallb comment_line (cb_pre cb) = true
   /\ forallb no_linebreak (cb_body cb) = true
   /\ filter not_comment (cb_body cb) = para_lines (cb_para cb)
+  /\ forallb gap_line (cb_gap cb) = true
   /\ match cb_armor cb with
-     | None => valid_seps ws (cb_seps cb) = true \/ (last = true /\ cb_seps cb = [])
-     | Some a => valid_armor ws a = true /\ forallb ws_line (cb_seps cb) = true
+     | None => (last = true /\ cb_gap cb = [])
+               \/ exists s more, cb_gap cb = s :: more /\ sep_line ws s = true
+     | Some a => valid_armor ws a = true
      end.
 Proof.
   unfold valid_cblock. intros H.
@@ -196,173 +347,116 @@ Proof.
   apply andb_true_iff in H. destruct H as [H H4]. apply andb_true_iff in H. destruct H as [H H3].
   apply andb_true_iff in H. destruct H as [H1 H2].
   split; [exact H1|]. split; [destruct (cb_para cb); discriminate|].
-  split; [exact H3|]. split; [exact H4|]. split; [now apply strs_eqb_eq|].
-  destruct (cb_armor cb) as [a|].
-  - apply andb_true_iff in H6. exact H6.
-  - apply orb_true_iff in H6. destruct H6 as [H6|H6]; [now left|right].
-    apply andb_true_iff in H6. destruct H6 as [-> H6]. destruct (cb_seps cb); [tauto|discriminate].
+  split; [exact H3|]. split; [now apply strs_eqb_eq|]. split; [exact H5|].
+  destruct (cb_armor cb) as [a|]; [exact H6|].
+  destruct (cb_gap cb) as [|s more]; [left; now split|right; now exists s, more].
 Qed.
 
+(** what is left of the iterator behind a block *)
 Definition after_cblock (cb : cblock) (tail : list str) : list str :=
   match cb_armor cb with
-  | None => match cb_seps cb with [] => [] | _ :: more => more ++ tail end
-  | Some _ => cb_seps cb ++ tail
+  | None => match cb_gap cb with [] => tail | _ :: more => more ++ tail end
+  | Some _ => cb_gap cb ++ tail
   end.
 
-Lemma body_nonnil body d : d <> [] -> filter not_comment body = para_lines d -> body <> [].
+(** from any run, the splitter returns the run and the block's payload (with
+    whatever comment lines it contains) and stops behind the first blank line /
+    the END line; the fuel does not matter *)
+Lemma block_from ws last f cs cb tail :
+  forallb gap_line cs = true -> valid_cblock ws last cb = true -> (last = true -> tail = []) ->
+  gpgmv_from f ws cs (cblock_lines cb ++ tail) = (Ok (cs ++ cb_body cb), after_cblock cb tail).
 Proof.
-  intros Hne Hf Hb. subst body. cbn in Hf. symmetry in Hf. now apply (para_lines_nonnil d Hne).
+  intros Hcs Hcb Htail.
+  destruct (valid_cblock_inv ws last cb Hcb) as (Hv & Hne & Hnl & Hf & Hgap & Hshape).
+  pose proof (commented_body_raw_safe _ _ Hv Hnl Hf) as Hbody.
+  pose proof (body_nonnil _ _ Hne Hf) as Hbne.
+  destruct (run_state_facts cs) as (Hst & Hpre & Hlines & Hpost).
+  pose proof (not_all_ignorable cs _ _ Hv Hne Hf) as Hnot.
+  assert (Hcsb : cs ++ cb_body cb <> []).
+  { intros E. apply app_eq_nil in E. tauto. }
+  unfold gpgmv_from, cblock_lines, after_cblock. destruct (cb_armor cb) as [a|]; cbn [wrap_lines].
+  - (* signed *)
+    rewrite <- app_assoc.
+    destruct (consume_armor_raw ws (is_nil cs) (run_state cs) a (cb_body cb) (cb_gap cb ++ tail)
+                Hshape Hbody Hst) as (g2 & E2 & Hl2).
+    rewrite E2, Hl2, Hlines.
+    destruct (cs ++ cb_body cb) as [|l0 ls0] eqn:E; [congruence|].
+    now rewrite Hnot, andb_false_r.
+  - (* unsigned *)
+    rewrite <- app_assoc.
+    destruct (consume_raw ws (cb_body cb) (is_nil cs) (run_state cs) (cb_gap cb ++ tail) Hbody Hst)
+      as (ab2 & g2 & E2 & Hst2 & Hp2 & Hl2 & Hpo2 & Hflags & _).
+    rewrite E2. destruct (Hflags Hbne) as [-> Hfirst2].
+    assert (Eg2 : g2 = mkG false s_SAFE [] (cs ++ cb_body cb) []).
+    { rewrite Hpre in Hp2. rewrite Hlines in Hl2. rewrite Hpost in Hpo2.
+      destruct g2 as [f2 st2 pre2 lines2 post2]. cbn [g_first g_state g_pre g_lines g_post] in *.
+      now subst. }
+    rewrite Eg2. destruct Hshape as [[Hl Hnil]|(s & more & Eg & Hs)].
+    + rewrite Hnil, (Htail Hl). cbn [app consume g_lines g_pre is_nil andb].
+      destruct (cs ++ cb_body cb) as [|l0 ls0] eqn:E; [congruence|]. now rewrite Hnot.
+    + rewrite Eg. cbn [app]. rewrite consume_sep by exact Hs. cbn [g_lines g_pre is_nil andb].
+      destruct (cs ++ cb_body cb) as [|l0 ls0] eqn:E; [congruence|]. now rewrite Hnot.
 Qed.
 
-(** [tail]: what follows the block; when the block is the last one, only
-    comment lines may follow. *)
+(** Dsc(iterator) positioned in front of a gap and a block *)
 Theorem gpgmv_init_cblock ws last lead cb tail :
-  forallb ws_line lead = true -> valid_cblock ws last cb = true ->
-  (last = true -> forallb comment_line tail = true) ->
+  forallb gap_line lead = true -> valid_cblock ws last cb = true -> (last = true -> tail = []) ->
   gpgmv_init ws (lead ++ cblock_lines cb ++ tail)
   = (Ok (expected_para (cb_para cb)), after_cblock cb tail).
 Proof.
-  intros Hlead Hcb Htail.
-  destruct (valid_cblock_inv ws last cb Hcb) as (Hv & Hne & Hpre & Hnl & Hf & Hshape).
-  pose proof (commented_body_raw_safe _ _ Hv Hnl Hf) as Hbody.
-  pose proof (body_nonnil _ _ Hne Hf) as Hbne.
-  pose proof (forallb_impl _ _ _ comment_line_raw_safe Hpre) as Hpre'.
-  unfold gpgmv_init, cblock_lines, after_cblock.
-  rewrite consume_lead by (reflexivity || assumption).
-  rewrite <- app_assoc.
-  destruct (consume_raw ws (cb_pre cb) true gpg_init
-              ((wrap_lines (cb_armor cb) (cb_body cb) ++ cb_seps cb) ++ tail) Hpre' eq_refl)
-    as (ab1 & g1 & E1 & Hst1 & Hp1 & Hl1 & Hpo1 & _ & _).
-  rewrite E1. cbn [gpg_init g_pre g_lines g_post app] in Hp1, Hl1, Hpo1.
-  assert (Hfilt : filter not_comment (cb_pre cb ++ cb_body cb) = para_lines (cb_para cb)).
-  { rewrite filter_app, (filter_comments_nil _ Hpre). exact Hf. }
-  destruct (cb_armor cb) as [a|]; cbn [wrap_lines].
-  - (* signed *)
-    destruct Hshape as [Ha Hseps]. rewrite <- app_assoc.
-    destruct (consume_armor_raw ws ab1 g1 a (cb_body cb) (cb_seps cb ++ tail) Ha Hbody Hst1)
-      as (g2 & E2 & Hl2).
-    rewrite E2. rewrite Hl2, Hl1. f_equal.
-    now apply deb822_init_commented.
-  - (* unsigned *)
-    rewrite <- app_assoc.
-    destruct (consume_raw ws (cb_body cb) ab1 g1 (cb_seps cb ++ tail) Hbody Hst1)
-      as (ab2 & g2 & E2 & Hst2 & Hp2 & Hl2 & Hpo2 & Hflags & _).
-    rewrite E2. destruct (Hflags Hbne) as [-> Hfirst2].
-    assert (Eg2 : g2 = mkG false s_SAFE [] (cb_pre cb ++ cb_body cb) []).
-    { rewrite Hp1 in Hp2. rewrite Hl1 in Hl2. rewrite Hpo1 in Hpo2.
-      destruct g2 as [f2 st2 pre2 lines2 post2]. cbn [g_first g_state g_pre g_lines g_post] in *.
-      now subst. }
-    rewrite Eg2. destruct Hshape as [Hseps|[Hl Hnil]].
-    + destruct (valid_seps_inv _ _ Hseps) as (s & more & -> & Hs1 & Hmore).
-      cbn [app]. rewrite consume_sep by exact Hs1. cbn [g_lines]. f_equal.
-      now apply deb822_init_commented.
-    + rewrite Hnil. cbn [app].
-      pose proof (forallb_impl _ _ _ comment_line_raw_safe (Htail Hl)) as Htl.
-      destruct (consume_raw ws tail false (mkG false s_SAFE [] (cb_pre cb ++ cb_body cb) []) []
-                  Htl eq_refl) as (ab3 & g3 & E3 & _ & _ & Hl3 & _).
-      rewrite app_nil_r in E3. rewrite E3. cbn [consume].
-      cbn [g_lines] in Hl3. rewrite Hl3. f_equal.
-      apply deb822_init_commented; [exact Hv|exact Hne|].
-      rewrite filter_app, (filter_comments_nil _ (Htail Hl)), app_nil_r. exact Hfilt.
+  intros Hlead Hcb Htail. unfold gpgmv_init. rewrite gpgmv_split_from.
+  destruct (gap_from ws lead [] (cblock_lines cb ++ tail) (length (lead ++ cblock_lines cb ++ tail))
+              Hlead eq_refl (le_n _)) as (cs' & f' & Hcs' & _ & E).
+  rewrite E, (block_from ws last f' cs' cb tail Hcs' Hcb Htail). cbn [bind]. f_equal.
+  destruct (valid_cblock_inv ws last cb Hcb) as (Hv & Hne & _ & Hf & _).
+  now apply deb822_init_commented.
+Qed.
+
+(** ... in front of a gap and nothing else *)
+Theorem gpgmv_init_gap ws lead :
+  forallb gap_line lead = true -> gpgmv_init ws lead = (Ok [], []).
+Proof.
+  intros Hlead. unfold gpgmv_init. rewrite gpgmv_split_from.
+  destruct (gap_from ws lead [] [] (length lead) Hlead eq_refl) as (cs' & f' & Hcs' & Hf' & E).
+  { rewrite app_nil_r. cbn [length]. lia. }
+  rewrite app_nil_r in E. rewrite E. unfold gpgmv_from. cbn [consume].
+  destruct (run_state_facts cs') as (_ & Hpre & Hlines & _). rewrite Hlines, Hpre.
+  destruct cs' as [|c0 cs0]; [reflexivity|]. cbn [is_nil andb].
+  rewrite (gap_lines_ignorable _ Hcs'). destruct f' as [|f']; [cbn [length] in Hf'; lia|]. reflexivity.
 Qed.
 
 (** * Documents with comment lines, read by Dsc/Changes *)
 
-Lemma gpgmv_init_trail ws lead trail :
-  forallb ws_line lead = true -> forallb comment_line trail = true ->
-  gpgmv_init ws (lead ++ trail) = (Ok [], []).
-Proof.
-  intros Hlead Htrail. unfold gpgmv_init.
-  replace (lead ++ trail) with (lead ++ trail ++ []) by now rewrite app_nil_r.
-  rewrite consume_lead by (reflexivity || assumption).
-  pose proof (forallb_impl _ _ _ comment_line_raw_safe Htrail) as Hraw.
-  destruct (consume_raw ws trail true gpg_init [] Hraw eq_refl) as (ab & g & E & _ & _ & Hl & _).
-  rewrite E. cbn [consume]. cbn [gpg_init g_lines app] in Hl. rewrite Hl. f_equal.
-  rewrite deb822_init_comments, (filter_comments_nil _ Htrail). reflexivity.
-Qed.
-
-Lemma after_cblock_shape ws cb cbs trail :
+Lemma after_cblock_shape ws cb cbs :
   valid_cblock ws (is_nil' cbs) cb = true ->
-  exists lead' trail',
-    after_cblock cb (concat (map cblock_lines cbs) ++ trail) = cdoc_lines lead' cbs trail'
-    /\ forallb ws_line lead' = true
-    /\ (forallb comment_line trail = true -> forallb comment_line trail' = true).
+  exists lead',
+    after_cblock cb (concat (map cblock_lines cbs)) = cdoc_lines lead' cbs
+    /\ forallb gap_line lead' = true.
 Proof.
-  intros Hcb. destruct (valid_cblock_inv _ _ _ Hcb) as (_ & _ & _ & _ & _ & Hshape).
+  intros Hcb. destruct (valid_cblock_inv _ _ _ Hcb) as (_ & _ & _ & _ & Hgap & Hshape).
   unfold after_cblock, cdoc_lines. destruct (cb_armor cb) as [a|].
-  - destruct Hshape as [_ Hseps]. now exists (cb_seps cb), trail.
-  - destruct Hshape as [Hseps|[Hl Hnil]].
-    + destruct (valid_seps_inv _ _ Hseps) as (s & more & -> & _ & Hmore). now exists more, trail.
-    + rewrite Hnil. destruct cbs; [|discriminate]. exists [], []. now repeat split.
+  - now exists (cb_gap cb).
+  - destruct Hshape as [[Hl Hnil]|(s & more & Eg & Hs)].
+    + rewrite Hnil. now exists [].
+    + rewrite Eg in *. cbn [forallb] in Hgap. apply andb_true_iff in Hgap. now exists more.
 Qed.
 
-Theorem iter_lines_cdoc ws cbs : forall lead trail,
-  forallb ws_line lead = true -> valid_cblocks ws cbs = true ->
-  forallb comment_line trail = true ->
-  iter_lines CGpgMv ws (cdoc_lines lead cbs trail)
+Theorem iter_lines_cdoc ws cbs : forall lead,
+  forallb gap_line lead = true -> valid_cblocks ws cbs = true ->
+  iter_lines CGpgMv ws (cdoc_lines lead cbs)
   = Ok (map (fun cb => expected_para (cb_para cb)) cbs).
 Proof.
-  induction cbs as [|cb cbs IH]; intros lead trail Hlead Hcbs Htrail.
-  - unfold cdoc_lines. cbn [map concat app]. unfold iter_lines. cbn [iter_loop init_of].
-    now rewrite gpgmv_init_trail.
+  induction cbs as [|cb cbs IH]; intros lead Hlead Hcbs.
+  - unfold cdoc_lines. cbn [map concat]. rewrite app_nil_r. unfold iter_lines. cbn [iter_loop init_of].
+    now rewrite gpgmv_init_gap.
   - cbn [valid_cblocks] in Hcbs. apply andb_true_iff in Hcbs. destruct Hcbs as [Hcb Hcbs].
-    unfold cdoc_lines. cbn [map concat]. rewrite <- app_assoc.
-    assert (E : init_of CGpgMv ws (lead ++ cblock_lines cb ++ concat (map cblock_lines cbs) ++ trail)
-                = (Ok (expected_para (cb_para cb)),
-                   after_cblock cb (concat (map cblock_lines cbs) ++ trail))).
+    unfold cdoc_lines. cbn [map concat].
+    assert (E : init_of CGpgMv ws (lead ++ cblock_lines cb ++ concat (map cblock_lines cbs))
+                = (Ok (expected_para (cb_para cb)), after_cblock cb (concat (map cblock_lines cbs)))).
     { cbn [init_of]. apply (gpgmv_init_cblock ws (is_nil' cbs)); try assumption.
-      intros Hl. destruct cbs; [exact Htrail|discriminate]. }
+      intros Hl. destruct cbs; [reflexivity|discriminate]. }
     destruct (valid_cblock_inv _ _ _ Hcb) as (_ & Hne & _).
     rewrite (iter_lines_step _ _ _ _ _ E) by now apply expected_para_nonnil.
-    destruct (after_cblock_shape ws cb cbs trail Hcb) as (lead' & trail' & -> & Hlead' & Htrail').
-    rewrite IH by auto. reflexivity.
-Qed.
-
-(** every line of such a document is free of line-boundary characters *)
-Lemma comment_line_no_linebreak l : comment_line l = true -> no_linebreak l = true.
-Proof. unfold comment_line. intros H. apply andb_true_iff in H. tauto. Qed.
-
-Lemma cblock_lines_no_linebreak ws last cb :
-  valid_cblock ws last cb = true -> forallb no_linebreak (cblock_lines cb) = true.
-Proof.
-  intros H. destruct (valid_cblock_inv _ _ _ H) as (Hv & _ & Hpre & Hnl & _ & Hshape).
-  unfold cblock_lines. rewrite !forallb_app.
-  rewrite (forallb_impl _ _ _ comment_line_no_linebreak Hpre). cbn [andb].
-  destruct (cb_armor cb) as [a|]; cbn [wrap_lines].
-  - destruct Hshape as [Ha Hseps]. destruct (valid_armor_inv _ _ Ha) as (Hw1 & Hw2 & Hw3 & Hhdr & Hbl & Hsig).
-    unfold armor_lines, armor_head, armor_tail. rewrite !forallb_app. cbn [forallb]. rewrite !forallb_app.
-    cbn [forallb]. rewrite Hnl.
-    rewrite !no_linebreak_app, (armor_pad_no_linebreak _ Hw1), (armor_pad_no_linebreak _ Hw2),
-      (armor_pad_no_linebreak _ Hw3).
-    rewrite (forallb_impl _ _ _ armor_text_line_no_linebreak Hhdr).
-    rewrite (forallb_impl _ _ _ sig_line_no_linebreak Hsig).
-    rewrite (ws_line_no_linebreak _ (sep_line_ws_line _ _ Hbl)).
-    rewrite (forallb_impl _ _ _ ws_line_no_linebreak Hseps). reflexivity.
-  - rewrite Hnl. destruct Hshape as [Hseps|[_ ->]]; [|reflexivity].
-    destruct (valid_seps_inv _ _ Hseps) as (s & more & -> & Hs1 & Hmore). cbn [forallb].
-    rewrite (ws_line_no_linebreak _ (sep_line_ws_line _ _ Hs1)).
-    now rewrite (forallb_impl _ _ _ ws_line_no_linebreak Hmore).
-Qed.
-
-Lemma cdoc_lines_no_linebreak ws lead cbs trail :
-  forallb ws_line lead = true -> valid_cblocks ws cbs = true -> forallb comment_line trail = true ->
-  forallb no_linebreak (cdoc_lines lead cbs trail) = true.
-Proof.
-  intros Hlead H Htrail. unfold cdoc_lines. rewrite !forallb_app.
-  rewrite (forallb_impl _ _ _ ws_line_no_linebreak Hlead).
-  rewrite (forallb_impl _ _ _ comment_line_no_linebreak Htrail). rewrite andb_true_r. cbn [andb].
-  induction cbs as [|cb cbs IH]; [reflexivity|]. cbn [valid_cblocks] in H.
-  apply andb_true_iff in H. destruct H as [Hcb Hcbs]. cbn [map concat]. rewrite forallb_app.
-  rewrite (cblock_lines_no_linebreak _ _ _ Hcb). now apply IH.
-Qed.
-
-(** comments_ignored for Dsc/Changes, in every input form *)
-Theorem gpgmv_roundtrip_comments ws crlf lead cbs trail i :
-  forallb ws_line lead = true -> valid_cblocks ws cbs = true -> forallb comment_line trail = true ->
-  In i (forms_of crlf (cdoc_lines lead cbs trail)) ->
-  iter_paragraphs CGpgMv ws i = Ok (map (fun cb => expected_para (cb_para cb)) cbs).
-Proof.
-  intros Hlead Hcbs Htrail Hi.
-  rewrite (iter_paragraphs_forms _ _ crlf _ i (cdoc_lines_no_linebreak ws _ _ _ Hlead Hcbs Htrail) Hi).
-  now apply iter_lines_cdoc.
+    destruct (after_cblock_shape ws cb cbs Hcb) as (lead' & -> & Hlead').
+    rewrite IH by assumption. reflexivity.
 Qed.
